@@ -38,6 +38,17 @@ def _build(static, shift="default"):
     return prog
 
 
+def _intshift_case(arg):
+    """worker: modes of the circuit unrolled with an integer shift (one shot)"""
+    static, sh = arg
+    try:
+        prog = _build(static, sh)
+        prog.unroll(shots=1)
+        return {"ok": True, "modes": [[r.ind for r in cmd.reg] for cmd in prog.circuit]}
+    except Exception as e:  # noqa
+        return {"ok": False, "err": type(e).__name__, "msg": str(e)[:200]}
+
+
 def _project(circuit):
     from . import absproj
     out = []
@@ -182,16 +193,28 @@ def c13(chk):
                 "unroll, after roll) compare the conditional Born law at every measurement, final window state and the samples array "
                 "entry-wise; space-unrolled run with measurements withheld and the hand-written explicit loop are compared with the exact "
                 "joint state. Non-trivial = every history with >= 1 call and every run.")
-    chk.assumptions = ["shift = default (per-band rotation); integer shift 1 on a single band is checked to produce the same circuit",
+    chk.assumptions = ["shift = default (per-band rotation) for the meaning of a program; integer shifts 1..3 (not larger than the register) are checked "
+                       "against the documented rule (whole register rotates by the step after every bin; IntShiftOneIsDefault ties it to the default for one band)",
                        "Gaussian simulator; homodyne comparisons at 1e-6/1e-5 (finite squeezing eps)"]
     templates = ([("n2", 3), ("n3", 4), ("n3b", 3), ("b22", 3), ("b23", 4), ("b352", 2), ("n2x", 3), ("b12r", 4)] if tier == "quick" else
                  [("n2", 3), ("n2", 5), ("n3", 4), ("n3", 6), ("n3b", 3), ("n3b", 5), ("b22", 3), ("b22", 4), ("b23", 4), ("b23", 5), ("b352", 3), ("n2x", 3), ("n2x", 5), ("b12r", 4), ("b12r", 5)])
     for tid, T in templates:
         r = chk.tlc("MC_TDM", constants={"TemplateId": tid, "T": T, "MaxShots": 1 if tid == "b352" else 2, "HistDepth": 3, "EMIT": True},
-                    invariants=["RollRestores", "CacheCoherent", "MeansLoop", "EmitHist", "EmitStatic"])
+                    invariants=["RollRestores", "CacheCoherent", "MeansLoop", "IntShiftOneIsDefault", "EmitHist", "EmitStatic"])
         static = [j for j in r.json if j["kind"] == "static"][0]
         hists = [j for j in r.json if j["kind"] == "hist"]
         single = len(static["bands"]) == 1
+        # integer shifts: the whole register rotates by the step after every bin (MC_TDM.UnrolledInt)
+        for sh, o in zip((1, 2, 3), common.pmap(_intshift_case, [(static, sh) for sh in (1, 2, 3)], chunksize=1)):
+            if sh > sum(static["bands"]):
+                continue        # a step larger than the register is outside the modelled range (shift_by does not wrap it: Appendix C)
+            chk.traces += 1
+            chk.count(key=(tid, T, "intshift", sh), nontrivial=True)
+            fi = {"template": tid, "shift": sh, "form": "unrolled", "bands": len(static["bands"])}
+            if not o["ok"]:
+                chk.violation("UnexpectedError", dict(fi, error=o["err"]), {"template": tid, "T": T, "msg": o["msg"]})
+            elif o["modes"] != [list(m) for m in static["intshift"][sh - 1]]:
+                chk.violation("IntegerShiftRegister", fi, {"template": tid, "T": T, "got": o["modes"], "expected": static["intshift"][sh - 1]})
         hcases = [(static, h, "default") for h in hists] + ([(static, h, 1) for h in hists] if single else [])
         res = common.pmap(_hist_case, hcases, chunksize=4)
         f0 = {"template": tid}
